@@ -13,6 +13,6 @@ namespace Fips204.SrcTie.Shape
 open Fips204.Gen
 
 /-- the text of `dudect_keygen_sign_with_rng` is the one Impl.dudectKeygenSign was modelled on -/
-theorem lib_dudect_keygen_sign_with_rng_text_unchanged : Shapes.lib_dudect_keygen_sign_with_rng = 319159920457381329 := rfl
+theorem lib_dudect_keygen_sign_with_rng_text_unchanged : Shapes.lib_dudect_keygen_sign_with_rng = 1093983603697421358 := rfl
 
 end Fips204.SrcTie.Shape
